@@ -83,7 +83,9 @@ def verify_db(sh, db, gspecs, attr, case, ks):
 			seen = {}
 			for m in item.closest_genomes:
 				seen[by_id[getattr(m.genome.genome, attr)]] = float(m.distance)
-			exp = {i: float(jaccarddist(sigarrs[j], sigarrs[i])) for i in range(n)}
+			import struct
+			from mc import refmodel as R
+			exp = {i: struct.unpack('<f', struct.pack('<I', R.ref_jaccard_f32(sigarrs[j].tolist(), sigarrs[i].tolist())))[0] for i in range(n)}
 			if seen != exp or exp[j] != 0.0 or any(exp[i] == 0.0 for i in range(n) if i != j):
 				sh.violation('distance-not-from-own-signature', dict(case, query=j, chunksize=chunksize), exp, seen)
 				return False
